@@ -73,7 +73,8 @@ class LogPublisher:
 
         brokenObservers = []
 
-        for observer in self._observers:
+        # Iterate over a copy: an observer may add or remove observers.
+        for observer in list(self._observers):
             if trace is not None:
                 trace(observer)
 
